@@ -64,7 +64,7 @@ def _pa(prog: Program, f: Func) -> PathAnalysis:
     return _PA[k]
 
 
-LATER_RULES = ' Later rules: evaluator membership by primitives, not by name; (R15.8) no memo keyed by evaluated values; (R15.9) no evaluated set reaches a call that can see its order. (R15.10) a false comprehension condition kills the whole comprehension, and only when nothing with an effect or of unknown value is evaluated before it. (R15.11) dead code is removed only after it was searched for yield. (R15.12) every primitive application of the evaluator is fenced by a cost predicate over its operands. R15.4 (later form): the handler of the signal yields no rewrite at all, effect-free or not.'
+LATER_RULES = ' Later rules: evaluator membership by primitives, not by name; (R15.8) no memo keyed by evaluated values; (R15.9) no evaluated set reaches a call that can see its order. (R15.10) a false comprehension condition kills the whole comprehension, and only when nothing with an effect or of unknown value is evaluated before it. (R15.11) dead code is removed only after it was searched for yield. (R15.12) every primitive application of the evaluator is fenced by a cost predicate over its operands. (R15.13) evaluated values are never remembered beyond the evaluation (single-use iterators, mutable containers). (R15.14) the calls exempt from the set-order fence are order-blind by a reference table. R15.9 (later form): the set test looks inside containers, and binary operations are fenced too. R15.4 (later form): the handler of the signal yields no rewrite at all, effect-free or not.'
 
 
 def check(prog: Program, tier: str) -> Result:
@@ -98,11 +98,13 @@ def check(prog: Program, tier: str) -> Result:
     _r15_6(prog, res, ev)
     _r15_8(prog, res, ev)
     _r15_9(prog, res, ev)
+    _r15_14(prog, res, ev)
+    _r15_13(prog, res, ev)
     _r15_10(prog, res, ev)
     _r15_11(prog, res, ev)
     _r15_12(prog, res, ev)
     _r15_7(prog, res, ev)
-    res.floors.update({"R15.1": 23, "R15.2": 18, "R15.3": 2, "R15.4": 10, "R15.5": 2, "R15.6": 2, "R15.9": 2, "R15.10": 5, "R15.11": 8, "R15.12": 3})
+    res.floors.update({"R15.1": 23, "R15.2": 18, "R15.3": 2, "R15.4": 10, "R15.5": 2, "R15.6": 2, "R15.9": 2, "R15.10": 5, "R15.11": 8, "R15.12": 3, "R15.13": 2, "R15.14": 1})
     res.analysed.update({"evaluator_functions": [f.fq for f in ev.members], "external_call_sites": len(ev.call_sites())})
     return res
 
@@ -344,14 +346,38 @@ def _r15_9(prog: Program, res: Result, ev: Evaluator) -> None:
     predicate whose body tests isinstance(.., (set, frozenset)), or that test inline)."""
     from ..pathcond import entails
     n = 0
+
+    def is_set_test(text: str) -> bool:
+        t = text.replace(" ", "")
+        return "isinstance(" in t and ("(set,frozenset)" in t or "(frozenset,set)" in t)
+
+    def looks_inside(g, seen=()) -> bool:
+        """the set test of predicate g is applied to the elements of containers too: it sits in a function that calls itself on
+        the elements of its argument (directly, or in a helper that g hands its arguments to)"""
+        if g.key in seen:
+            return False
+        own = is_set_test(" ".join(norm(x) for x in walk_own(g.node) if isinstance(x, ast.Call) and norm(x.func) == "isinstance"))
+        recursive = any((lambda r: r and r[0] == "fn" and r[1].key == g.key)(prog.resolve_call(x.func, g.mod, g)) for x in prog.calls_in(g))
+        if own:
+            return recursive
+        for x in prog.calls_in(g):
+            r = prog.resolve_call(x.func, g.mod, g)
+            if r and r[0] == "fn" and is_set_test(norm(r[1].node)) and looks_inside(r[1], seen + (g.key,)):
+                return True
+        return False
+    shallow_reported = set()
     for f, c, kind in ev.primitive_sites():
-        if kind not in ("builtin call", "method call on evaluated receiver"):
+        if kind == "operator table call":
+            # comparisons (==, <, in, is ..) cannot see the order of a set; binary operations can: "%s" % {"a", "b"}
+            idx = c.func.slice if isinstance(c.func, ast.Subscript) else None
+            from_compare = idx is not None and any(isinstance(a, (ast.GeneratorExp, ast.ListComp, ast.For)) for a in [*__import__("sa.model", fromlist=["ancestors"]).ancestors(c)]) \
+                and "ops" in " ".join(norm(g.iter) for a in __import__("sa.model", fromlist=["ancestors"]).ancestors(c) for g in getattr(a, "generators", []))
+            if from_compare:
+                res.ok("R15.9", f.loc(c), f.fq, f"{short(c, 70)} # {kind}", "operators of a comparison: no comparison can see the order of a set", trivial=True)
+                continue
+        elif kind not in ("builtin call", "method call on evaluated receiver"):
             continue
         n += 1
-
-        def is_set_test(text: str) -> bool:
-            t = text.replace(" ", "")
-            return "isinstance(" in t and ("(set,frozenset)" in t or "(frozenset,set)" in t)
 
         def tested_at(g, at, call) -> bool:
             """at `at` in g, the outcome (negative) of a set test over what `call` passes on is known"""
@@ -362,10 +388,20 @@ def _r15_9(prog: Program, res: Result, ev: Evaluator) -> None:
             for x in ast.walk(g.node):
                 if isinstance(x, ast.Call) and passed & {y.id for a in x.args for y in ast.walk(a) if isinstance(y, ast.Name)}:
                     r = prog.resolve_call(x.func, g.mod, g)
-                    if r and r[0] == "fn" and is_set_test(norm(r[1].node)):
+                    if r and r[0] == "fn" and r[1].key not in {m_.key for m_ in ev.members} and (is_set_test(norm(r[1].node)) or any(
+                            (lambda r2: r2 and r2[0] == "fn" and is_set_test(norm(r2[1].node)))(prog.resolve_call(y.func, r[1].mod, r[1])) for y in prog.calls_in(r[1]))):
                         tests.append(x)
+                        if not looks_inside(r[1]) and r[1].key not in shallow_reported:
+                            shallow_reported.add(r[1].key)
+                            res.bad("R15.9", r[1].loc(), r[1].fq, f"{r[1].node.name}() # the test for sets among the evaluated values",
+                                    "only the values themselves are tested, not what they contain: a set inside a list, tuple or dict is written out in its iteration "
+                                    "order all the same - `str([{'spam', 'eggs'}])`, `repr({1: {..}})`")
                     elif isinstance(x.func, ast.Name) and x.func.id == "any" and is_set_test(norm(x)):
                         tests.append(x)
+                        if ("inline", g.key) not in shallow_reported:
+                            shallow_reported.add(("inline", g.key))
+                            res.bad("R15.9", g.loc(x), g.fq, f"{short(x, 70)} # the test for sets among the evaluated values",
+                                    "only the values themselves are tested, not what they contain: a set inside a list, tuple or dict is written out in its iteration order all the same")
             return bool(worlds) and any(all(entails(w.facts, pa.formula(t, w, False)) for w in worlds) for t in tests)
         ok = False
         for alt in ev.guard_sites(f, c, kind):
@@ -379,6 +415,85 @@ def _r15_9(prog: Program, res: Result, ev: Evaluator) -> None:
                    "hash seed of the formatter's process, not of the program - `list({'spam', 'eggs', 'ham'}) == [..]` folds to True or False from run to run")
     if n == 0:
         raise AnalysisError("R15.9: no builtin / method primitive found")
+
+
+# ------------------------------------------------------------------------------------------------ R15.14
+ORDER_BLIND_REFERENCE = {
+    # the result for a set argument is the same whatever order the set is iterated in
+    "len", "sorted", "min", "max", "any", "all", "set", "frozenset", "bool", "isinstance", "callable",
+}   # NOT: sum (start value concatenation sum(S, ()), float addition is not associative), list, tuple, str, repr, next, iter, zip, enumerate, dict, join ..
+
+
+def _r15_14(prog: Program, res: Result, ev: Evaluator) -> None:
+    """The set-order fence exempts calls that cannot see the order.  The exemption table (a display of names tested against the
+    callee name inside the predicate that holds the set test) is compared with a reference table: a name that is not
+    order-blind for every argument list (`sum`: sum({("x",), ("y",)}, ()) concatenates in iteration order) lets an
+    order-dependent value through."""
+    n = 0
+    for g in prog.funcs.values():
+        if g.mod.name != "core":
+            continue
+        t = " ".join(norm(x) for x in walk_own(g.node) if isinstance(x, ast.Call))
+        calls_set_test = any((lambda r: r and r[0] == "fn" and "isinstance(" in norm(r[1].node) and "frozenset" in norm(r[1].node))(prog.resolve_call(x.func, g.mod, g)) for x in prog.calls_in(g))
+        if not (("isinstance(" in t and "frozenset" in t) or calls_set_test):
+            continue
+        params = set(g.all_params)
+        for cmp_ in walk_own(g.node):
+            if not (isinstance(cmp_, ast.Compare) and len(cmp_.ops) == 1 and isinstance(cmp_.ops[0], (ast.In, ast.NotIn)) and isinstance(cmp_.left, ast.Name) and cmp_.left.id in params):
+                continue
+            table = cmp_.comparators[0]
+            if isinstance(table, ast.Name):
+                vals = [v for _s, v in bindings(g).get(table.id, []) if v is not None]
+                table = vals[0] if len(vals) == 1 else (g.mod.globals.get(table.id) if not vals else None)
+            if not isinstance(table, (ast.Set, ast.Tuple, ast.List)) or not all(isinstance(e, ast.Constant) and isinstance(e.value, str) for e in table.elts):
+                continue
+            n += 1
+            names = [e.value for e in table.elts]
+            wrong = sorted(set(names) - ORDER_BLIND_REFERENCE)
+            res.decide(not wrong, "R15.14", g.loc(cmp_), g.fq, f"{short(cmp_, 60)} # calls exempt from the set-order fence",
+                       f"all {len(names)} exempt names are order-blind" if not wrong else
+                       f"{wrong} can see the order in which a set is iterated (sum(S, ()) concatenates in that order; float addition is not associative): the folded value "
+                       "is that of the formatter's hash seed")
+    if n == 0:
+        res.undecided("R15.14", "pyrefact/core.py:0", "core", "exemption table of the set-order fence", "no table of callee names found next to the set test")
+
+
+# ------------------------------------------------------------------------------------------------ R15.13
+def _r15_13(prog: Program, res: Result, ev: Evaluator) -> None:
+    """Evaluated values do not outlive the evaluation.  The whitelisted builtins hand out single-use iterators (reversed, zip,
+    map, filter, enumerate, iter) and mutable containers; a value that is remembered - functools cache on a function of the
+    evaluator, or a store into a table that lives longer than the call (module level, enclosing scope) - is handed to a later
+    evaluation exhausted or modified, whatever the table is keyed by (the node, its dump, its text)."""
+    n = 0
+    keys = {f.key for f in ev.members}
+    for f in ev.members:
+        n += 1
+        if f.is_cached:
+            res.bad("R15.13", f.loc(), f.fq, f"{f.node.name}() # a function of the evaluator is memoised",
+                    "the same VALUE object is handed out again: an iterator (reversed(..), zip(..)) comes back exhausted by its first consumer, a list modified")
+            continue
+        bad = None
+        local = set(bindings(f)) | set(f.all_params)
+        for st_ in walk_own(f.node):
+            tgt = None
+            if isinstance(st_, ast.Assign) and isinstance(st_.targets[0], ast.Subscript):
+                tgt, val = st_.targets[0], st_.value
+            elif isinstance(st_, ast.Call) and isinstance(st_.func, ast.Attribute) and st_.func.attr in ("setdefault", "update", "append", "add") and st_.args:
+                tgt, val = st_.func, st_.args[-1]
+            if tgt is None or not isinstance(tgt.value, ast.Name) or tgt.value.id in local:
+                continue
+            exprs = [val] + [v for x in ast.walk(val) if isinstance(x, ast.Name) for (_s, v) in bindings(f).get(x.id, []) if v is not None]
+            hot = any(isinstance(x, ast.Call) and (lambda r: r and r[0] == "fn" and r[1].key in keys)(prog.resolve_call(x.func, f.mod, f)) for e in exprs for x in ast.walk(e))
+            if hot:
+                bad = st_
+        if bad is not None:
+            res.bad("R15.13", f.loc(bad), f.fq, f"{short(bad, 70)} # an evaluated value is stored beyond the evaluation",
+                    f"`{norm(bad.targets[0].value) if isinstance(bad, ast.Assign) else norm(bad.func.value)}` is not a local of the function: the value is handed to a later evaluation as the SAME object - "
+                    "`tuple(reversed([1, 2]))` after `list(reversed([1, 2]))` gets the exhausted iterator and folds to ()")
+        else:
+            res.ok("R15.13", f.loc(), f.fq, f"{f.node.name}() # evaluated values stay inside the evaluation", "not memoised, no store into a longer-lived table")
+    if n == 0:
+        raise AnalysisError("R15.13: no function of the evaluator found")
 
 
 # ------------------------------------------------------------------------------------------------ R15.8
@@ -744,9 +859,18 @@ VARIANTS = [
     Variant("cost-bound-asked-after-the-computation", "FIRE", "core", "        if _is_too_costly_to_call(node.func.attr, args, is_method=True):\n            raise ValueError(\"The value is too large to be computed while formatting\")\n        return getattr(node_value, node.func.attr)(*args)\n", "        result = getattr(node_value, node.func.attr)(*args)\n        if _is_too_costly_to_call(node.func.attr, args, is_method=True):\n            raise ValueError(\"The value is too large to be computed while formatting\")\n        return result\n", "R15.12"),
     Variant("set-order-revealed-to-builtins", "FIRE", "core",
             "            if _reveals_set_order(node.func.id, args):\n                raise ValueError(\"The order of a set is not the same in every process\")\n", "", "R15.9"),
-    Variant("set-order-test-inline", "SILENT", "core",
+    Variant("set-order-test-inline-and-shallow", "FIRE", "core",
             "            if _reveals_set_order(node.func.id, args):\n                raise ValueError(\"The order of a set is not the same in every process\")\n",
-            "            if any(isinstance(arg, (set, frozenset)) for arg in args):\n                raise ValueError(\"The order of a set is not the same in every process\")\n"),
+            "            if any(isinstance(arg, (set, frozenset)) for arg in args):\n                raise ValueError(\"The order of a set is not the same in every process\")\n", "R15.9"),
+    Variant("set-test-does-not-look-inside-containers", "FIRE", "core",
+            "    return function_name not in order_blind and any(_holds_set(arg) for arg in args)\n",
+            "    return function_name not in order_blind and any(isinstance(arg, (set, frozenset)) for arg in args)\n", "R15.9"),
+    Variant("binary-operations-not-tested-for-sets", "FIRE", "core",
+            "        if _formats_a_set(node.op, left, right):\n            raise ValueError(\"The order of a set is not the same in every process\")\n", "", "R15.9"),
+    Variant("sum-exempt-from-the-set-order-fence", "FIRE", "core", 'order_blind = {"len", "sorted", "min", "max", "any"', 'order_blind = {"len", "sorted", "min", "max", "sum", "any"', "R15.14"),
+    Variant("evaluated-values-remembered-by-their-dump", "FIRE", "core", "        return _literal_value(node)\n    except ValueError:\n        raise\n",
+            "        key = ast.dump(node)\n        if key not in _KNOWN_VALUES:\n            _KNOWN_VALUES[key] = _literal_value(node)\n        return _KNOWN_VALUES[key]\n    except ValueError:\n        raise\n", "R15.13",
+            extra=[("core", "def _reveals_set_order(", "_KNOWN_VALUES = {}\n\n\ndef _reveals_set_order(")]),
     Variant("builtin-call-tested-against-rebound-names", "SILENT", "core",
             "        if isinstance(node.func, ast.Name) and node.func.id in constants.PURE_BUILTIN_FUNCTIONS:\n            args = [literal_value(arg) for arg in node.args]",
             "        if isinstance(node.func, ast.Name) and node.func.id in constants.PURE_BUILTIN_FUNCTIONS and node.func.id not in REBOUND_NAMES:\n            args = [literal_value(arg) for arg in node.args]",
@@ -793,7 +917,9 @@ VARIANTS = [
     Variant("whitelist-as-union", "SILENT", "core",
             "        if isinstance(node.func, ast.Name) and node.func.id in constants.PURE_BUILTIN_FUNCTIONS:",
             "        if isinstance(node.func, ast.Name) and node.func.id in (constants.PURE_BUILTIN_FUNCTIONS | frozenset({\"abs\"})):"),
-    Variant("evaluator-memoised-by-node", "SILENT", "core", "def _literal_value(node: ast.AST) -> bool:", "@functools.lru_cache(maxsize=1000)\ndef _literal_value(node: ast.AST) -> bool:"),
+    Variant("evaluator-memoised-by-node", "FIRE", "core", "def _literal_value(node: ast.AST) -> bool:", "@functools.lru_cache(maxsize=1000)\ndef _literal_value(node: ast.AST) -> bool:", "R15.13"),
+    Variant("evaluated-values-collected-in-a-local-table", "SILENT", "core", "        args = [literal_value(arg) for arg in node.args]\n        if _reveals_set_order(node.func.attr, args):",
+            "        values = {}\n        for position, arg in enumerate(node.args):\n            values[position] = literal_value(arg)\n        args = [values[position] for position in sorted(values)]\n        if _reveals_set_order(node.func.attr, args):"),
     Variant("builtin-results-memoised-by-value", "FIRE", "core",
             "            args = [literal_value(arg) for arg in node.args]\n            if _reveals_set_order(node.func.id, args):\n                raise ValueError(\"The order of a set is not the same in every process\")\n            if _is_too_costly_to_call(node.func.id, args, is_method=False):\n                raise ValueError(\"The value is too large to be computed while formatting\")\n            return getattr(builtins, node.func.id)(*args)",
             "            args = tuple(literal_value(arg) for arg in node.args)\n            if _reveals_set_order(node.func.id, args):\n                raise ValueError(\"The order of a set is not the same in every process\")\n            if _is_too_costly_to_call(node.func.id, args, is_method=False):\n                raise ValueError(\"The value is too large to be computed while formatting\")\n            return _memo_call(getattr(builtins, node.func.id), args)", "R15.8",
